@@ -197,8 +197,13 @@ def main(argv=None):
                 m["inconclusive"].append("finish(): %r" % (exc,))
     known, new = classify(check_id, m["violations"], findings)
     wall = time.time() - t0
+    seen_entries = {}
     for mech, v, ent in known:
-        print("KNOWN-FINDING: property=%s %s [mechanism=%s, seen %d times]" % (check_id, ent["what"], mech, v["count"]))
+        e = seen_entries.setdefault(id(ent), [ent, [], 0])
+        e[1].append(mech)
+        e[2] += v["count"]
+    for ent, mechs, n in seen_entries.values():
+        print("KNOWN-FINDING: property=%s %s [mechanisms seen: %s; %d times]" % (check_id, ent["what"], ", ".join(mechs[:6]), n))
     for mech, v, _ in new:
         path = write_replay(check_id, mech, v)
         print("VIOLATION property=%s replay=%s" % (check_id, path))
